@@ -527,6 +527,9 @@ func (m *Model) PredictTx(f *TxFacts) TxPrediction {
 	case "stake":
 		v, exists := m.Vals[s.Acct]
 		switch {
+		case m.kr.Get(s.Acct).Type != "ed":
+			// only keys of the type the consensus parameters allow (ed25519) can ever sit in Tendermint's set
+			p.HandlerMustFail, p.HandlerReason, p.HandlerProp = true, "stake-with-non-consensus-key", "C05"
 		case exists && v.Status != StUnstaked:
 			p.HandlerMustFail, p.HandlerReason, p.HandlerProp = true, "stake-while-not-unstaked", "C06"
 		case f.Amount.Cmp(big.NewInt(m.P.StakeMinimum)) < 0:
